@@ -343,74 +343,111 @@ theorem full_W_solves {cov : Cov ℝ} {x : Mat ℝ n d} {y : Mat ℝ n c} {mu : 
             (choSolveM L (Mat.ofFn (n := n) (m := F.c) fun i k => F.el i k)).el t k)] at hentry
           simpa [choSolveAny, AnyMat.el] using hentry
 
-/-- DTC: the factor `W` solves the same inducing-point system as the weights, with the input factor
-    `Σ_L` (one row per cell: `sigma·I_n`, or the supplied `L·diag(std)`) as right-hand side:
+/-- DTC outside the per-cell branch (scalar sigma, explicit factor, or values that are the mean; the per-cell branch is
+    `dtc_percell_W_solves`): the factor `W` solves the same inducing-point system as the weights, with the input factor
+    `Σ_L` (one row per cell: `sigma·I_n`, `diag(sigma)`, or the supplied `L·diag(std)`) as right-hand side:
     `(L N Lᵀ + K_uf K_fu) W = K_uf Σ_L`. -/
 theorem dtc_W_solves {cov : Cov ℝ} {x : Mat ℝ n d} {xu : Mat ℝ m d} {y : Mat ℝ n c} {mu : ℝ}
-    {sigma : Sigma ℝ m} {jitter : ℝ} {ycf : Option (AnyMat ℝ)} {yIsMean : Bool} {s : CondState ℝ m d c}
-    (h : lmCondInit cov x xu y mu sigma jitter ycf yIsMean true = .ok s) :
+    {sigma : Sigma ℝ n} {jitter : ℝ} {ycf : Option (AnyMat ℝ)} {yIsMean : Bool} {s : CondState ℝ m d c}
+    (h : lmCondInit cov x xu y mu sigma jitter ycf yIsMean true = .ok s)
+    (hpc : lmPerCell sigma ycf yIsMean = Option.none) :
     ∃ (L : Mat ℝ m m) (N : Matrix (Fin m) (Fin m) ℝ) (F W : AnyMat ℝ),
-      C01.dtcNoise m sigma jitter ycf yIsMean = .ok N ∧ s.L = some L ∧ s.W = some W ∧ F.r = n ∧ W.c = F.c
+      C01.dtcNoise m sigma jitter ycf yIsMean = .ok N ∧ sigmaToYCovFactor sigma ycf = .ok F
+      ∧ s.L = some L ∧ s.W = some W ∧ F.r = n ∧ W.c = F.c
       ∧ (toM L * N * (toM L)ᵀ + toM (gram cov xu x) * (toM (gram cov xu x))ᵀ)
             * toM (Mat.ofFn (n := m) (m := F.c) fun i k => W.el i k)
           = toM (gram cov xu x) * toM (Mat.ofFn (n := n) (m := F.c) fun i k => F.el i k) := by
-  unfold lmCondInit at h
-  split at h
-  · cases h
-  · rename_i L hL
-    obtain ⟨Kuu', hKuu', hchol⟩ := getL_spec hL
-    simp only at h
-    split at h
-    · cases h
-    · rename_i LLB hLLB
-      obtain ⟨N, hN, hLLBeq, hNsym⟩ := C01.lmLLB_spec hLLB
-      split at h
-      · cases h
-      · rename_i LB hLB
-        have hcholB := chol?_spec hLB
-        simp only [Bool.not_true, Bool.false_eq_true, if_false] at h
-        split at h
-        · cases h
-        · rename_i W hW
-          have hs := (Except.ok.inj h).symm; subst hs
-          unfold lmUnc at hW
-          simp only at hW
-          split at hW
-          · cases hW
-          · rename_i F hF
-            split at hW
-            · cases hW
-            · rename_i AF hAF
-              have hWW := (Except.ok.inj hW).symm; subst hWW
-              unfold matMulAny at hAF
-              split at hAF
-              · cases hAF
-              · rename_i hFr
-                have hFr' : F.r = n := by simpa using hFr
-                have hAFeq := (Except.ok.inj hAF).symm; subst hAFeq
-                set A := solveLowerM L (gram cov xu x) with hA
-                have hLA : toM L * toM A = toM (gram cov xu x) := solveLowerM_mul hchol.lowerNonsing _
-                have hAAt : toM (matMulT A A) = toM A * (toM A)ᵀ := matMulT_toM A A
-                have hLLB' : toM LLB = toM A * (toM A)ᵀ + N := by rw [hLLBeq, hAAt]
-                let R : Mat ℝ n F.c := Mat.ofFn fun i k => F.el i k
-                have key := dtc_solve (p := F.c) hchol.lowerNonsing hLA hcholB hLLB' hNsym R
-                refine ⟨L, N, F, _, hN, rfl, rfl, hFr', rfl, ?_⟩
-                have hAF : (Mat.ofFn (n := m) (m := F.c) fun i k => nsum n fun t => A.el i t * F.el t k)
-                    = matMul A R := by
-                  apply mat_ext
-                  intro i k hi hk
-                  simp only [matMul, el_ofFn, hi, hk, and_self, if_true]
-                  apply nsum_congr
-                  intro t ht
-                  simp only [R, el_ofFn, ht, hk, and_self, if_true]
-                have hWeq : (Mat.ofFn (n := m) (m := F.c) fun i k =>
-                      (solveUpperTAny L (choSolveAny LB
-                        ⟨m, F.c, Mat.ofFn fun i k => nsum n fun t => A.el i t * F.el t k⟩)).el i k)
-                    = lmWeights L LB A R := by
-                  simp only [AnyMat.el] at hAF
-                  simp only [solveUpperTAny, choSolveAny, AnyMat.el, ofFn_el, lmWeights, hAF]
-                rw [hWeq]
-                exact key
+  obtain ⟨L, hL, hbr⟩ := lmCondInit_ok h
+  obtain ⟨hLns, _⟩ := getL_none_LLt hL
+  rcases hbr with ⟨_, hcore⟩ | ⟨v, hv, _⟩
+  · obtain ⟨LLB, LB, hLLB, hLB, _, _, _, _, _, _, hunc⟩ := lmCore_ok hcore
+    obtain ⟨W, hW, hsL, hsW⟩ := hunc rfl
+    obtain ⟨N, hN, hLLBeq, hNsym⟩ := C01.lmLLB_spec hLLB
+    obtain ⟨F, hF, hFr, hWc, hWeq⟩ := lmUnc_spec hW
+    have hLA : toM L * toM (solveLowerM L (gram cov xu x)) = toM (gram cov xu x) := solveLowerM_mul hLns _
+    have hLLB' : toM LLB = toM (solveLowerM L (gram cov xu x)) * (toM (solveLowerM L (gram cov xu x)))ᵀ + N := by
+      rw [hLLBeq, matMulT_toM]
+    have key := dtc_solve (p := F.c) hLns hLA (chol?_spec hLB) hLLB' hNsym
+      (Mat.ofFn (n := n) (m := F.c) fun i k => F.el i k)
+    refine ⟨L, N, F, W, hN, hF, hsL, hsW, hFr, hWc, ?_⟩
+    rw [hWeq]
+    exact key
+  · rw [hpc] at hv; cases hv
+
+/-- **DTC with per-cell noise.**  For a per-cell sigma vector the propagated factor `W` (`m × n`, one column per cell) solves
+    the heteroscedastic inducing-point system of the weights (`C01.dtc_percell_weights_solve`) with the whitened unit factor
+    as right-hand side:
+
+      `(K̃_uu + K_uf D⁻¹ K_fu) · W = K_uf D^-1/2`,   `D = diag(max(σᵢ², jitter))`.
+
+    With `M = (K̃_uu + K_uf D⁻¹ K_fu)⁻¹ K_uf D⁻¹` the linear map from the values to the weights, `W = M D^1/2`, hence
+    `W Wᵀ = M D Mᵀ`: `mean_covariance = J D Jᵀ` with `J = K_*u M` the linear map from the values to the predicted mean. -/
+theorem dtc_percell_W_solves {cov : Cov ℝ} {x : Mat ℝ n d} {xu : Mat ℝ m d} {y : Mat ℝ n c} {mu : ℝ}
+    {v : Vector ℝ n} {jitter : ℝ} {s : CondState ℝ m d c}
+    (h : lmCondInit cov x xu y mu (.vec v) jitter Option.none false true = .ok s) :
+    ∃ (L : Mat ℝ m m) (W : AnyMat ℝ), s.L = some L ∧ s.W = some W ∧ W.c = n
+      ∧ toM L * (toM L)ᵀ = toM (gram cov xu xu) + jitter • (1 : Matrix (Fin m) (Fin m) ℝ)
+      ∧ (toM (gram cov xu xu) + jitter • (1 : Matrix (Fin m) (Fin m) ℝ)
+          + toM (gram cov xu x) * Matrix.diagonal (fun i : Fin n => (max (v.nth i * v.nth i) jitter)⁻¹)
+              * (toM (gram cov xu x))ᵀ) * toM (Mat.ofFn (n := m) (m := n) fun i k => W.el i k)
+        = toM (gram cov xu x)
+            * Matrix.diagonal (fun i : Fin n => 1 / Real.sqrt (max (v.nth i * v.nth i) jitter)) := by
+  obtain ⟨L, hL, hbr⟩ := lmCondInit_ok h
+  obtain ⟨hLns, hLLt⟩ := getL_none_LLt hL
+  rcases hbr with ⟨hnone, _⟩ | ⟨v', hv', hcore⟩
+  · rw [C01.perCell_vec] at hnone; cases hnone
+  · rw [C01.perCell_vec] at hv'
+    have hvv : v = v' := Option.some.inj hv'
+    subst hvv
+    obtain ⟨LLB, LB, hLLB, hLB, _, _, _, _, _, _, hunc⟩ := lmCore_ok hcore
+    obtain ⟨W, hW, hsL, hsW⟩ := hunc rfl
+    obtain ⟨F, hF, hFr, hWc, hWeq⟩ := lmUnc_spec hW
+    -- the factor is the unit factor of the whitened problem
+    have hFe : F = ⟨n, n, Mat.ofFn fun i k => if i = k then (1 : ℝ) else 0⟩ := by
+      simp only [sigmaToYCovFactor, sigmaFactor] at hF
+      exact (Except.ok.inj hF).symm
+    subst hFe
+    have hLLBe : LLB = _ := (Except.ok.inj hLLB).symm
+    set S := Matrix.diagonal (toV (cellScale v jitter)) with hS
+    set A := solveLowerM L (gram cov xu x) with hA
+    have hLA0 : toM L * toM A = toM (gram cov xu x) := solveLowerM_mul hLns _
+    have hLA : toM L * toM (scaleCols A (cellScale v jitter))
+        = toM (scaleCols (gram cov xu x) (cellScale v jitter)) := by
+      rw [toM_scaleCols, toM_scaleCols, ← Matrix.mul_assoc, hLA0]
+    have hLLB' : toM LLB = toM (scaleCols A (cellScale v jitter)) * (toM (scaleCols A (cellScale v jitter)))ᵀ
+        + (1 : Matrix (Fin m) (Fin m) ℝ) := by
+      rw [hLLBe, toM_addEye, matMulT_toM]
+    have key := dtc_solve (p := n) hLns hLA (chol?_spec hLB) hLLB' Matrix.isSymm_one
+      (Mat.ofFn (n := n) (m := n) fun i k => if i = k then (1 : ℝ) else 0)
+    have hI : toM (Mat.ofFn (n := n) (m := n) fun i k => if i = k then (1 : ℝ) else 0)
+        = (1 : Matrix (Fin n) (Fin n) ℝ) := by
+      ext i k
+      simp only [toM_apply, el_ofFn, i.isLt, k.isLt, and_self, if_true, Matrix.one_apply]
+      by_cases hik : i = k
+      · subst hik; simp
+      · have : ¬ (i.val = k.val) := fun hh => hik (Fin.ext hh)
+        simp [hik, this]
+    simp only [AnyMat.el] at hWeq key
+    rw [ofFn_el (Mat.ofFn (n := n) (m := n) fun i k => if i = k then (1 : ℝ) else 0)] at hWeq
+    rw [← hWeq, Matrix.mul_one, hLLt, toM_scaleCols, hI, Matrix.mul_one, ← hS] at key
+    have hSS : S * S = Matrix.diagonal (fun i : Fin n => (max (v.nth i * v.nth i) jitter)⁻¹) :=
+      cellScale_sq v jitter
+    have hSt : Sᵀ = S := Matrix.diagonal_transpose _
+    have hSe : S = Matrix.diagonal (fun i : Fin n => 1 / Real.sqrt (max (v.nth i * v.nth i) jitter)) := by
+      rw [hS]
+      congr 1
+      funext i
+      simp only [toV_apply, cellScale, nth_vecOfFn, i.isLt, if_true, sqrt_real, cellVariance_real]
+    refine ⟨L, W, hsL, hsW, hWc, hLLt, ?_⟩
+    rw [← hSS, ← hSe]
+    calc (toM (gram cov xu xu) + jitter • (1 : Matrix (Fin m) (Fin m) ℝ)
+            + toM (gram cov xu x) * (S * S) * (toM (gram cov xu x))ᵀ)
+              * toM (Mat.ofFn (n := m) (m := n) fun i k => W.M.el i k)
+        = (toM (gram cov xu xu) + jitter • (1 : Matrix (Fin m) (Fin m) ℝ)
+            + toM (gram cov xu x) * S * (toM (gram cov xu x) * S)ᵀ)
+              * toM (Mat.ofFn (n := m) (m := n) fun i k => W.M.el i k) := by
+          rw [Matrix.transpose_mul, hSt]; simp only [Matrix.mul_assoc]
+      _ = toM (gram cov xu x) * S := key
 
 /-- Latent form: `W` solves `Lᵀ W = diag(std)` (the latent posterior standard deviations). -/
 theorem latent_W_solves {cov : Cov ℝ} {xu : Mat ℝ m d} {z : Mat ℝ m c} {mu : ℝ} {nObs : Nat}
